@@ -31,6 +31,9 @@ EventOK(e) ==
          /\ Len(e.out) = Len(e.in)
          /\ \A i \in 1 .. Len(e.in) : LitSet(e.out[i]) = LitSet(e.in[i])
          /\ e.nv = MaxVar(e.in) + 1
+         \* the DIMACS constructor on the same clause list: the same clause sets
+         /\ "via_dimacs_panic" \notin DOMAIN e
+         /\ (IF "via_dimacs" \in DOMAIN e THEN SetsOf(e.via_dimacs) = SetsOf(e.out) ELSE TRUE)
     [] e.ev = "cnf_eval" -> e.val = (\A i \in 1 .. Len(e.cnf) : ClauseTrue(e.asg, e.cnf[i]))
     [] e.ev = "cnf_satp" -> e.val = (\A i \in 1 .. Len(e.cnf) : ClauseSat(e.pm, e.cnf[i]))
     [] e.ev = "cnf_cond" ->
@@ -88,7 +91,7 @@ EventOK(e) ==
          /\ e.distinct = Cardinality({ToSet(e.s[i]) : i \in 1 .. Len(e.s)})
     [] e.ev = "pm_eq" -> \A i, j \in 1 .. Len(e.m) : e.eq[i][j] = (e.m[i] = e.m[j])
     [] e.ev = "pm_total" -> e.m = [i \in 1 .. Len(e.in) |-> IF e.in[i] THEN 1 ELSE 0]
-    [] e.ev \in {"h_new", "h_push", "h_pop", "h_decide"} -> TRUE
+    [] e.ev \in {"h_new", "h_push", "h_pop", "h_decide", "h_burst"} -> TRUE     \* h_burst: n rounds of push / decide / pop back to the same state
     [] e.ev = "h_hash" ->
          /\ e.h1 = e.h2
          /\ IF FalsifiesNone(hcnf, e.pm)
